@@ -54,8 +54,8 @@ def run(tier):
     traces = pool_map("drv_c15", "run", items)
     res.traces = res.evaluations = len(traces)
     judge(res, traces, wd)
-    res.rule = ("programs = behaviours of spec/Partition.tla: d in 1..3, all sequences of %d get_block calls over 4 held points "
-                "(two leaves, two combinations) and all block numbers (invalid block numbers included), then the solve-time "
+    res.rule = ("programs = behaviours of spec/Partition.tla: d in 1..3, all sequences of %d get_block calls over 5 held points "
+                "(two leaves, two combinations, and the block returned by the first call, decomposed again) and all block numbers, then the solve-time "
                 "constraint generation; TLC checks on the observed blocks and constraints: sum, repetition, identity for d=1, "
                 "set of orthogonality relations, and every coordinate partition of Z^3 on a grid as a real instance" % n)
     res.samples = [dict(d=t["d"], calls=t["h"], leaf_points=t["np"], constraints=len(t["cons"])) for t in
